@@ -249,6 +249,53 @@ theorem request_deferred_fires_once (h p a d : Bool) (evs : List Event) (hlost :
       simpa [run] using fired_persists evs _ h1 hf
     · simpa [run] using ih (step s e) h1 ⟨r, hr⟩
 
+/-! #### the same when the application's quiescent callback raises (mutation audit: `harness/mutants/C23` m12)
+
+`_finishResponse_WAITING` runs the quiescent callback under `failuresHandled`; when it raises the protocol logs the
+failure and calls `transport.loseConnection()`, then disconnects the parser as usual (`S.qRaises`, `initQ`).  The
+control projection does not see the difference, so the invariant and the theorem carry over. -/
+
+theorem initQ_false (h p a d : Bool) : Twisted.Http.Client.initQ h p a d false = Twisted.Http.Client.init h p a d := rfl
+
+theorem inv_initQ (h p a d q : Bool) : InvK (proj (Twisted.Http.Client.initQ h p a d q)) := by
+  have e : proj (Twisted.Http.Client.initQ h p a d q) = proj (Twisted.Http.Client.init h p a d) := rfl
+  rw [e]; exact inv_init h p a d
+
+/-- **exactly once, whether or not the quiescent callback raises**: `request_deferred_fires_once` over the enlarged
+    space of initial states `initQ h p a d q` (`q = false` is `init h p a d`). -/
+theorem request_deferred_fires_once_quiescent_raises (h p a d q : Bool) (evs : List Event)
+    (hlost : ∃ r, Event.lost r ∈ evs) :
+    (run (Twisted.Http.Client.initQ h p a d q) evs).fires.length = 1 := by
+  suffices H : ∀ (evs : List Event) (s : S), InvK (proj s) → (∃ r, Event.lost r ∈ evs) → (run s evs).fires.length = 1 from
+    H evs _ (inv_initQ h p a d q) hlost
+  intro evs
+  induction evs with
+  | nil => intro s _ hl; obtain ⟨r, hr⟩ := hl; simp at hr
+  | cons e evs ih =>
+    intro s hs hl
+    obtain ⟨h1, _⟩ := inv_step s e hs
+    obtain ⟨r, hr⟩ := hl
+    simp only [List.mem_cons] at hr
+    rcases hr with hr | hr
+    · subst hr
+      have hf : (step s (.lost r)).fires.length = 1 := by
+        have := (inv_connectionLost _ r hs).2
+        rw [← proj_connectionLost] at this
+        exact this
+      simpa [run] using fired_persists evs _ h1 hf
+    · simpa [run] using ih (step s e) h1 ⟨r, hr⟩
+
+theorem request_deferred_fires_at_most_once_quiescent_raises (h p a d q : Bool) (evs : List Event) :
+    (run (Twisted.Http.Client.initQ h p a d q) evs).fires.length ≤ 1 :=
+  inv_fires_le _ (inv_run evs _ (inv_initQ h p a d q)).1
+
+/-- non-vacuity: "HTTP/1.1 204 N\r\n\r\n" on a persistent connection whose quiescent callback raises: the callback was
+    called once, the connection is being closed, and the request Deferred fired once, with the response -/
+example :
+    let s := run (Twisted.Http.Client.initQ false true false true true) [.data [72, 84, 84, 80, 47, 49, 46, 49, 32, 50, 48, 52, 32, 78, 13, 10, 13, 10], .lost .connectionDone]
+    s.fires = [.response] ∧ s.quiet = 1 ∧ s.disconnecting = true ∧ s.lost = [.done] := by
+  decide +kernel
+
 /-- without the loss of the connection: at most once, for every event script -/
 theorem request_deferred_fires_at_most_once (h p a d : Bool) (evs : List Event) :
     (run (Twisted.Http.Client.init h p a d) evs).fires.length ≤ 1 :=
